@@ -2,8 +2,8 @@
    The fault type has 14 constructors:
      - 9 (c02_fault) are excluded by the verifier invariant  (VerifyProofs.verify_sound),
      - 3 (FUseAfterFree / FDoubleFree / FBadTag) by the collector invariant (VMGCProofs.vm_no_heap_fault),
-     - FOverflow is produced by NO model function (see [no_overflow_anywhere] below: every lemma here
-       excludes it together with FUnwrap),
+     - FOverflow is produced by NO model function (it occurs only in Base.v, Verify.c02_fault and
+       corr/Render.v; every lemma here excludes it together with FUnwrap: [unwrap_free]),
      - FUnwrap is excluded HERE.
    The FUnwrap sites reachable from VM.step and how each is discharged:
      (1) VM.index_get, array and string case: nth_error after a successful norm_index.
@@ -422,3 +422,908 @@ Proof.
     + apply rpost_bind; [apply clean_get_str|]. intros; split; [apply zlength_lb|exact Hh].
     + apply rpost_bind; [apply clean_get_arr|]. intros; split; [apply zlength_lb|exact Hh].
 Qed.
+
+(** * 4. The machine state *)
+
+Lemma get_arr_ints : forall h l vs, heap_ints h -> get_arr h l = Ok vs -> ints_ok vs.
+Proof.
+  intros h l vs Hh H. apply get_arr_inv in H. unfold h_get in H.
+  destruct (PM.find l (cells h)) as [[[|] o]|] eqn:E; try discriminate H. inversion H; subst.
+  eapply Hh; exact E.
+Qed.
+
+(* site (1): after a successful normalisation the element exists *)
+Lemma norm_index_nth : forall A (l : list A) z i, - WORD <= z ->
+  norm_index z (zlength l) = Ok i -> nth_error l (Z.to_nat i) <> None.
+Proof.
+  intros A l z i Hz H.
+  rewrite norm_index_spec in H by (auto using VMStepProofs.zlength_nonneg).
+  destruct (in_range z (zlength l)) eqn:R; [|discriminate H]. inversion H; subst i.
+  destruct (nth_error_in_range l z R) as [v ->]. discriminate.
+Qed.
+
+Lemma clean_norm_index : forall z len, clean (norm_index z len).
+Proof. intros. unfold norm_index. destruct (len <=? _); exact I. Qed.
+
+Lemma pop_n_args : forall n s acc vs s', pop_n n s acc = Ok (vs, s') ->
+  vs = rev (firstn n (v_stack s)) ++ acc /\ v_heap s' = v_heap s.
+Proof.
+  induction n as [|n IH]; intros s acc vs s' H; cbn [pop_n] in H.
+  - inversion H; subst. split; reflexivity.
+  - unfold pop in H. destruct (v_stack s) as [|v st] eqn:Es; cbn [bind] in H; [discriminate H|].
+    apply IH in H. cbn [upd_stack v_stack v_heap] in H. destruct H as [-> Hh]. split; [|exact Hh].
+    cbn [firstn rev]. rewrite <- app_assoc. reflexivity.
+Qed.
+
+Section Step.
+  Variable orc : oracle.
+  Variable prog : program.
+
+  Local Notation II := (IntInv prog).
+  Local Notation SI := (SInv prog).
+
+  Lemma ii_restack : forall s st n fr ip bp out, II s -> ints_ok st ->
+    II (mkVM st n (v_globals s) fr ip bp (v_final s) (v_heap s) (v_gc s) out).
+  Proof. intros s st n fr ip bp out [A B C D E] Hst. constructor; assumption. Qed.
+
+  Lemma ii_upd_ip : forall s ip, II s -> II (upd_ip s ip).
+  Proof. intros s ip H. apply ii_restack; [exact H|apply (ii_stack _ _ H)]. Qed.
+  Lemma ii_upd_out : forall s o, II s -> II (upd_out s o).
+  Proof. intros s o H. apply ii_restack; [exact H|apply (ii_stack _ _ H)]. Qed.
+  Lemma ii_upd_stack : forall s st n, II s -> ints_ok st -> II (upd_stack s st n).
+  Proof. intros s st n H Hst. apply ii_restack; assumption. Qed.
+  Lemma ii_push : forall s v, II s -> int_lb v = true -> II (push v s).
+  Proof. intros s v H Hv. apply ii_upd_stack; [exact H|]. apply ints_cons; [exact Hv|apply (ii_stack _ _ H)]. Qed.
+  Lemma ii_upd_globals : forall s gl, II s -> ints_ok gl -> II (upd_globals s gl).
+  Proof. intros s gl [A B C D E] Hg. constructor; assumption. Qed.
+  Lemma ii_upd_final : forall s v, II s -> int_lb v = true -> II (upd_final s v).
+  Proof. intros s v [A B C D E] Hv. constructor; assumption. Qed.
+  Lemma ii_upd_heap : forall s h g, II s -> heap_ints h -> II (upd_heap s h g).
+  Proof. intros s h g [A B C D E] Hh. constructor; assumption. Qed.
+
+  Lemma ii_with_new : forall s r, II s -> rpost (Ok r) -> II (push (fst r) (with_new s r)).
+  Proof.
+    intros s [v h'] H [Hv Hh]. cbn [fst]. apply ii_push; [|exact Hv]. unfold with_new.
+    destruct (Pos.eqb _ _); apply ii_upd_heap; assumption.
+  Qed.
+
+  (** ** the primitive operations *)
+
+  Lemma clean_read_u8 : forall s, clean (read_u8 prog s).
+  Proof. intros. unfold read_u8. cl. Qed.
+  Lemma read_u8_ii : forall s b s', II s -> read_u8 prog s = Ok (b, s') -> II s'.
+  Proof.
+    intros s b s' H E. unfold read_u8 in E. destruct (byte_at prog (v_ip s)); inversion E; subst.
+    apply ii_upd_ip; exact H.
+  Qed.
+  Lemma clean_read_u16 : forall s, clean (read_u16 prog s).
+  Proof. intros. unfold read_u16. cl. Qed.
+  Lemma read_u16_ii : forall s b s', II s -> read_u16 prog s = Ok (b, s') -> II s'.
+  Proof.
+    intros s b s' H E. unfold read_u16 in E.
+    destruct (byte_at prog (v_ip s)); [|discriminate E].
+    destruct (byte_at prog (v_ip s + 1)); inversion E; subst. apply ii_upd_ip; exact H.
+  Qed.
+
+  Lemma clean_pop : forall s, clean (pop s).
+  Proof. intros. unfold pop. cl. Qed.
+  Lemma pop_ii : forall s v s', II s -> pop s = Ok (v, s') -> II s' /\ int_lb v = true.
+  Proof.
+    intros s v s' H E. unfold pop in E. pose proof (ii_stack _ _ H) as Hs.
+    destruct (v_stack s) as [|x st]; inversion E; subst. inversion Hs; subst.
+    split; [apply ii_upd_stack; assumption|assumption].
+  Qed.
+
+  Lemma clean_pop_n : forall k s acc, clean (pop_n k s acc).
+  Proof.
+    induction k as [|k IH]; intros s acc; cbn [pop_n]; [exact I|].
+    pose proof (clean_pop s) as Hc. destruct (pop s) as [[v s']| |f|]; cbn [bind clean] in *; try exact I; try exact Hc.
+    apply IH.
+  Qed.
+  Lemma pop_n_ii : forall k s acc vs s', II s -> ints_ok acc -> pop_n k s acc = Ok (vs, s') ->
+    II s' /\ ints_ok vs.
+  Proof.
+    induction k as [|k IH]; intros s acc vs s' H Ha E; cbn [pop_n] in E.
+    - inversion E; subst. split; assumption.
+    - destruct (pop s) as [[v s1]| | |] eqn:Ep; cbn [bind] in E; try discriminate E.
+      destruct (pop_ii _ _ _ H Ep) as [H1 Hv].
+      eapply IH; [exact H1| |exact E]. apply ints_cons; assumption.
+  Qed.
+
+  Lemma clean_get_local : forall i s, clean (get_local i s).
+  Proof. intros. unfold get_local. cl. Qed.
+  Lemma get_local_ii : forall s i v, II s -> get_local i s = Ok v -> int_lb v = true.
+  Proof.
+    intros s i v H E. unfold get_local in E. destruct (_ <? _); [|discriminate E].
+    destruct (nth_error _ _) as [x|] eqn:En; inversion E; subst.
+    eapply ints_nth_error; [apply (ii_stack _ _ H)|exact En].
+  Qed.
+  Lemma clean_set_local : forall i v s, clean (set_local i v s).
+  Proof. intros. unfold set_local. cl. Qed.
+  Lemma set_local_ii : forall s i v s', II s -> int_lb v = true -> set_local i v s = Ok s' -> II s'.
+  Proof.
+    intros s i v s' H Hv E. unfold set_local in E. destruct (_ <? _); inversion E; subst.
+    apply ii_upd_stack; [exact H|]. apply ints_replace; [exact Hv|apply (ii_stack _ _ H)].
+  Qed.
+
+  Lemma clean_get_const : forall i, clean (get_const prog i).
+  Proof. intros. unfold get_const. cl. Qed.
+  Lemma get_const_ii : forall s i v, II s -> get_const prog i = Ok v -> int_lb v = true.
+  Proof.
+    intros s i v H E. unfold get_const in E. destruct (nth_error _ _) as [x|] eqn:En; inversion E; subst.
+    eapply ints_nth_error; [apply (ii_consts _ _ H)|exact En].
+  Qed.
+
+  Lemma clean_popframe : forall s, clean (popframe s).
+  Proof. intros. unfold popframe. cl. Qed.
+  Lemma popframe_ii : forall s s', II s -> popframe s = Ok s' -> II s' /\ v_final s' = v_final s.
+  Proof.
+    intros s s' H E. unfold popframe in E. destruct (v_frames s) as [|fr [|cur rest]]; inversion E; subst.
+    split; [|reflexivity]. apply ii_restack; [exact H|].
+    destruct (_ <? _); [apply ints_skipn|]; apply (ii_stack _ _ H).
+  Qed.
+
+  Lemma clean_pushframe : forall ip bp s, clean (pushframe ip bp s).
+  Proof. intros. unfold pushframe. cl. Qed.
+  Lemma pushframe_ii : forall s ip bp s', II s -> pushframe ip bp s = Ok s' -> II s'.
+  Proof.
+    intros s ip bp s' H E. unfold pushframe in E. destruct (v_frames s); inversion E; subst.
+    apply ii_restack; [exact H|apply (ii_stack _ _ H)].
+  Qed.
+
+  Lemma collect_ii : forall s extra s', II s -> collect prog s extra = Ok s' -> II s' /\ v_final s' = v_final s.
+  Proof.
+    intros s extra s' H E. unfold collect in E.
+    destruct (gc_run (v_heap s) (v_gc s) (roots prog s extra)) as [[g' h']| | |] eqn:Er; cbn [bind] in E; try discriminate E.
+    inversion E; subst. split; [|reflexivity]. apply ii_upd_heap; [exact H|].
+    eapply hi_gc_run; [exact Er|apply (ii_heap _ _ H)].
+  Qed.
+
+  (** ** outcomes of a straight-line piece of an instruction *)
+
+  Definition tgood (r : outcome vm) : Prop :=
+    match r with
+    | Ok s' => II s'
+    | Fault f => unwrap_free f
+    | OutOfFuel => False
+    | Err _ => True
+    end.
+
+  Lemma tgood_bind : forall A (e : outcome A) (k : A -> outcome vm),
+    clean e -> (forall a, e = Ok a -> tgood (k a)) -> tgood (bind e k).
+  Proof.
+    intros A e k He Hk. destruct e as [a|x|f|]; cbn [bind tgood clean] in *; try exact I; try exact He.
+    apply Hk; reflexivity.
+  Qed.
+
+  Lemma tgood_of_clean : forall (e : outcome vm), clean e -> (forall s', e = Ok s' -> II s') -> tgood e.
+  Proof. intros [s'| |f|] Hc Hs; cbn [tgood clean] in *; try exact I; try exact Hc. apply Hs; reflexivity. Qed.
+
+  (* a value with its heap is pushed *)
+  Lemma tgood_result : forall s (r : outcome (val * heap)), II s -> rpost r ->
+    tgood (do r0 <- r; Ok (push (fst r0) (with_new s r0))).
+  Proof.
+    intros s [r0|k|f|] H Hr; cbn [bind tgood]; try exact I; try exact Hr.
+    apply ii_with_new; assumption.
+  Qed.
+
+  Lemma binary_tgood : forall s m, II s -> method_known m = true -> tgood (binary orc m s).
+  Proof.
+    intros s m H Hk. unfold binary.
+    apply tgood_bind; [apply clean_pop|]. intros [rhs s1] E1. destruct (pop_ii _ _ _ H E1) as [H1 _].
+    apply tgood_bind; [apply clean_pop|]. intros [lhs s2] E2. destruct (pop_ii _ _ _ H1 E2) as [H2 _].
+    apply tgood_result; [exact H2|]. apply binop_post; [exact Hk|apply (ii_heap _ _ H2)].
+  Qed.
+
+  Lemma fused_tgood : forall s m, II s -> method_known m = true -> tgood (fused orc prog m s).
+  Proof.
+    intros s m H Hk. unfold fused.
+    apply tgood_bind; [apply clean_read_u16|]. intros [li s1] E1. pose proof (read_u16_ii _ _ _ H E1) as H1.
+    apply tgood_bind; [apply clean_get_local|]. intros lhs El.
+    apply tgood_bind; [apply clean_read_u16|]. intros [ci s2] E2. pose proof (read_u16_ii _ _ _ H1 E2) as H2.
+    apply tgood_bind; [apply clean_get_const|]. intros rhs Er.
+    apply tgood_result; [exact H2|]. apply binop_post; [exact Hk|apply (ii_heap _ _ H2)].
+  Qed.
+
+  (* site (1) *)
+  Lemma index_get_tgood : forall s lhs index, II s -> int_lb index = true -> tgood (index_get s lhs index).
+  Proof.
+    intros s lhs index H Hi. unfold index_get. destruct index as [| |z| | | |]; try exact I.
+    apply int_lb_word in Hi.
+    destruct lhs as [| | | | |l|l]; try exact I.
+    - apply tgood_bind; [apply clean_get_str|]. intros t Et.
+      apply tgood_bind; [apply clean_norm_index|]. intros i En.
+      pose proof (norm_index_nth _ t z i Hi En) as Hn.
+      destruct (nth_error t (Z.to_nat i)) as [c|]; [|exfalso; apply Hn; reflexivity].
+      cbn [tgood]. apply ii_with_new; [exact H|]. apply alloc_str_post. apply (ii_heap _ _ H).
+    - apply tgood_bind; [apply clean_get_arr|]. intros vs Ea.
+      apply tgood_bind; [apply clean_norm_index|]. intros i En.
+      pose proof (norm_index_nth _ vs z i Hi En) as Hn.
+      destruct (nth_error vs (Z.to_nat i)) as [v|] eqn:Ev; [|exfalso; apply Hn; reflexivity].
+      cbn [tgood]. apply ii_push; [exact H|].
+      eapply ints_nth_error; [|exact Ev]. eapply get_arr_ints; [apply (ii_heap _ _ H)|exact Ea].
+  Qed.
+
+  Lemma index_set_tgood : forall s lhs index value, II s -> int_lb value = true ->
+    tgood (index_set s lhs index value).
+  Proof.
+    intros s lhs index value H Hv. unfold index_set. destruct index as [| |z| | | |]; try exact I.
+    destruct lhs as [| | | | |l|l]; try exact I.
+    - apply tgood_bind; [apply clean_get_str|]. intros t Et.
+      apply tgood_bind; [apply clean_norm_index|]. intros i En.
+      destruct value as [| | | | |k|]; try exact I.
+      apply tgood_bind; [apply clean_get_str|]. intros repl Er.
+      apply tgood_bind; [apply clean_h_set|]. intros h' Eh.
+      cbn [tgood]. apply ii_push; [|reflexivity]. apply ii_upd_heap; [exact H|].
+      eapply hi_set; [exact Eh|apply (ii_heap _ _ H)|exact I].
+    - apply tgood_bind; [apply clean_get_arr|]. intros vs Ea.
+      apply tgood_bind; [apply clean_norm_index|]. intros i En.
+      apply tgood_bind; [apply clean_h_set|]. intros h' Eh.
+      cbn [tgood]. apply ii_push; [|exact Hv]. apply ii_upd_heap; [exact H|].
+      eapply hi_set; [exact Eh|apply (ii_heap _ _ H)|].
+      cbn [obj_ints]. apply ints_replace; [exact Hv|].
+      eapply get_arr_ints; [apply (ii_heap _ _ H)|exact Ea].
+  Qed.
+
+  (** ** one instruction *)
+
+  (* the instruction at the ip of s0 is `CallBuiltin print argc` and one of the argc arguments on top
+     of the stack is an array nested deeper than show_depth (every cyclic array is: finding D26,
+     BuiltinsProofs.depth_le_cyclic), so Display runs out of the depth the model gives it *)
+  Definition print_too_deep (s0 : vm) : Prop :=
+    exists b bb argc v,
+      byte_at prog (v_ip s0) = Some b /\ opcode_of_byte b = Some OCallBuiltin
+      /\ byte_at prog (v_ip s0 + 1) = Some bb /\ builtin_of_byte bb = Some BPrint
+      /\ byte_at prog (v_ip s0 + 2) = Some argc
+      /\ In v (firstn (Z.to_nat argc) (v_stack s0))
+      /\ display orc (v_heap s0) v = OutOfFuel
+      /\ ~ depth_le (v_heap s0) show_depth v.
+
+  Definition tpost0 (r : outcome stepres) : Prop :=
+    match r with
+    | Ok (Continue s') => II s'
+    | Fault f => unwrap_free f
+    | OutOfFuel => False
+    | _ => True
+    end.
+
+  Definition tpost (s0 : vm) (r : outcome stepres) : Prop :=
+    match r with
+    | Ok (Continue s') => II s'
+    | Fault f => unwrap_free f
+    | OutOfFuel => print_too_deep s0
+    | _ => True
+    end.
+
+  Lemma tpost0_tpost : forall s0 r, tpost0 r -> tpost s0 r.
+  Proof. intros s0 [[s'|v s']|k|f|] H; cbn [tpost tpost0] in *; try exact H; contradiction. Qed.
+
+  Lemma cont_tpost : forall r, tgood r -> tpost0 (do s' <- r; Ok (Continue s')).
+  Proof. intros [s'| |f|] H; exact H. Qed.
+
+  Lemma fallthrough_tpost : forall s op, II s ->
+    tpost0
+      match assoc opcode_eqb op binary_dispatch with
+      | Some m => do s' <- binary orc m s; Ok (Continue s')
+      | None => match assoc opcode_eqb op fused_dispatch with
+                | Some m => do s' <- fused orc prog m s; Ok (Continue s')
+                | None => Fault FBadOpcode
+                end
+      end.
+  Proof.
+    intros s op H. destruct (assoc opcode_eqb op binary_dispatch) as [m|] eqn:Eb.
+    - apply cont_tpost. apply binary_tgood; [exact H|]. eapply dispatch_known; left; exact Eb.
+    - destruct (assoc opcode_eqb op fused_dispatch) as [m|] eqn:Ef.
+      + apply cont_tpost. apply fused_tgood; [exact H|]. eapply dispatch_known; right; exact Ef.
+      + cbn [tpost0]. ufd.
+  Qed.
+
+  Ltac rd16 H idx s1 H1 :=
+    apply tgood_bind; [apply clean_read_u16|];
+    let E := fresh "E" in intros [idx s1] E; pose proof (read_u16_ii _ idx s1 H E) as H1.
+  Ltac rd8 H idx s1 H1 :=
+    apply tgood_bind; [apply clean_read_u8|];
+    let E := fresh "E" in intros [idx s1] E; pose proof (read_u8_ii _ idx s1 H E) as H1.
+  Ltac pp H v s1 H1 Hv :=
+    apply tgood_bind; [apply clean_pop|];
+    let E := fresh "E" in intros [v s1] E; destruct (pop_ii _ v s1 H E) as [H1 Hv].
+
+  Lemma tcase_const : forall s, II s -> tpost0
+    (do s' <-
+     (do (idx, s1) <- read_u16 prog s;
+      do v <- get_const prog idx;
+      match v with
+      | VStr l =>
+          do t <- get_str (v_heap s1) l;
+          Ok (push (fst (alloc_str (v_heap s1) t)) (with_new s1 (alloc_str (v_heap s1) t)))
+      | _ => Ok (push v s1)
+      end); Ok (Continue s')).
+  Proof.
+    intros s H. apply cont_tpost. rd16 H idx s1 H1.
+    apply tgood_bind; [apply clean_get_const|]. intros v Ev.
+    pose proof (get_const_ii s1 idx v H1 Ev) as Hv.
+    destruct v as [| | | |l|l|l]; try (apply ii_push; assumption).
+    apply tgood_bind; [apply clean_get_str|]. intros t Et.
+    cbn [tgood]. apply ii_with_new; [exact H1|]. apply alloc_str_post. apply (ii_heap _ _ H1).
+  Qed.
+
+  Lemma tcase_pop : forall s, II s -> tpost0
+    (do s' <- (do (v, s1) <- pop s; Ok (upd_final s1 v)); Ok (Continue s')).
+  Proof. intros s H. apply cont_tpost. pp H v s1 H1 Hv. apply ii_upd_final; assumption. Qed.
+
+  Lemma tcase_push : forall s v, II s -> int_lb v = true ->
+    tpost0 (do s' <- Ok (push v s); Ok (Continue s')).
+  Proof. intros s v H Hv. apply cont_tpost. apply ii_push; assumption. Qed.
+
+  Lemma tcase_not : forall s, II s -> tpost0
+    (do s' <- (do (v, s1) <- pop s; do r <- lognot v; Ok (push r s1)); Ok (Continue s')).
+  Proof.
+    intros s H. apply cont_tpost. pp H v s1 H1 Hv.
+    destruct v; try exact I. cbn [lognot bind]. apply ii_push; [exact H1|reflexivity].
+  Qed.
+
+  Lemma tcase_negate : forall s, II s -> tpost0
+    (do s' <-
+     (do (v, s1) <- pop s;
+      do r <- negate (v_heap s1) v; Ok (push (fst r) (with_new s1 r)));
+     Ok (Continue s')).
+  Proof.
+    intros s H. apply cont_tpost. pp H v s1 H1 Hv.
+    apply tgood_result; [exact H1|]. apply negate_post. apply (ii_heap _ _ H1).
+  Qed.
+
+  Lemma tcase_jump : forall s, II s -> tpost0
+    (do s' <- (do (pos, s1) <- read_u16 prog s; Ok (upd_ip s1 pos)); Ok (Continue s')).
+  Proof. intros s H. apply cont_tpost. rd16 H pos s1 H1. apply ii_upd_ip; exact H1. Qed.
+
+  Lemma tcase_jif : forall s, II s -> tpost0
+    (do s' <-
+     (do pat <- pop s;
+      match pat with
+      | (VBool b0, s1) =>
+          do (pos, s2) <- read_u16 prog s1;
+          Ok (if b0 then s2 else upd_ip s2 pos)
+      | _ => Err ETypeError
+      end); Ok (Continue s')).
+  Proof.
+    intros s H. apply cont_tpost. pp H c s1 H1 Hv.
+    destruct c; try exact I. rd16 H1 pos s2 H2.
+    cbn [tgood]. destruct b; [exact H2|apply ii_upd_ip; exact H2].
+  Qed.
+
+  (* site (5): the collection cannot fail *)
+  Lemma tcase_return : forall s, SI s -> II s -> tpost0
+    (do s' <-
+     (do s1 <- popframe s;
+      do s2 <- collect prog s1 [v_final s1]; Ok (push VNull s2));
+     Ok (Continue s')).
+  Proof.
+    intros s HS H. apply cont_tpost.
+    apply tgood_bind; [apply clean_popframe|]. intros s1 E1.
+    destruct (popframe_inv prog s s1 HS E1) as [HS1 _].
+    destruct (popframe_ii s s1 H E1) as [H1 _].
+    assert (Hex : oks (v_heap s1) [v_final s1]).
+    { intros v [<-|[]]. apply (si_final _ _ HS1). }
+    destruct (collect_ok prog s1 _ HS1 Hex) as [s2 E2]. rewrite E2. cbn [bind tgood].
+    destruct (collect_ii s1 _ s2 H1 E2) as [H2 _]. apply ii_push; [exact H2|reflexivity].
+  Qed.
+
+  Lemma tcase_return_value : forall s, SI s -> II s -> tpost0
+    (do s' <-
+     (do (result, s1) <- pop s;
+      do s2 <- popframe s1;
+      do s3 <- collect prog s2 [v_final s2; result]; Ok (push result s3));
+     Ok (Continue s')).
+  Proof.
+    intros s HS H. apply cont_tpost.
+    apply tgood_bind; [apply clean_pop|]. intros [result s1] E1.
+    destruct (pop_ii _ _ _ H E1) as [H1 Hres].
+    destruct (pop_inv prog _ result s1 HS E1) as [HS1 [Hh1 Hrv]].
+    apply tgood_bind; [apply clean_popframe|]. intros s2 E2.
+    destruct (popframe_inv prog s1 s2 HS1 E2) as [HS2 [Hh2 _]].
+    destruct (popframe_ii s1 s2 H1 E2) as [H2 _].
+    assert (Hex : oks (v_heap s2) [v_final s2; result]).
+    { intros v [<-|[<-|[]]]; [apply (si_final _ _ HS2)|congruence]. }
+    destruct (collect_ok prog s2 _ HS2 Hex) as [s3 E3]. rewrite E3. cbn [bind tgood].
+    destruct (collect_ii s2 _ s3 H2 E3) as [H3 _]. apply ii_push; assumption.
+  Qed.
+
+  Lemma tcase_call : forall s, II s -> tpost0
+    (do s' <-
+     (do (argc, s1) <- read_u8 prog s;
+      do pat0 <- pop s1;
+      match pat0 with
+      | (VFun ip n, s2) =>
+          if n <? argc
+          then Err EArgumentError
+          else
+           if (MAX_STACK_SIZE <? v_slen s2 + n) || (MAX_FRAMES <=? zlength (v_frames s2))
+           then Err ETypeError
+           else
+            if v_slen s2 <? argc
+            then Fault FCallUnderflow
+            else
+             pushframe ip (v_slen s2 - argc)
+               (upd_stack s2 (repeat_val VNull (Z.to_nat (n - argc)) ++ v_stack s2)
+                  (v_slen s2 + (n - argc)))
+      | _ => Err ETypeError
+      end); Ok (Continue s')).
+  Proof.
+    intros s H. apply cont_tpost. rd8 H argc s1 H1. pp H1 f s2 H2 Hv.
+    destruct f; try exact I.
+    destruct (n <? argc); [exact I|].
+    destruct ((MAX_STACK_SIZE <? v_slen s2 + n) || (MAX_FRAMES <=? zlength (v_frames s2))); [exact I|].
+    destruct (v_slen s2 <? argc); [cbn [tgood]; ufd|].
+    apply tgood_of_clean; [apply clean_pushframe|]. intros s' Epf.
+    eapply pushframe_ii; [|exact Epf]. apply ii_upd_stack; [exact H2|].
+    apply ints_app; [apply ints_repeat_null|apply (ii_stack _ _ H2)].
+  Qed.
+
+  Lemma tcase_get_local : forall s, II s -> tpost0
+    (do s' <-
+     (do (idx, s1) <- read_u16 prog s;
+      do v <- get_local idx s1; Ok (push v s1)); Ok (Continue s')).
+  Proof.
+    intros s H. apply cont_tpost. rd16 H idx s1 H1.
+    apply tgood_bind; [apply clean_get_local|]. intros v Ev.
+    apply ii_push; [exact H1|]. eapply get_local_ii; eassumption.
+  Qed.
+
+  Lemma tcase_set_local : forall s, II s -> tpost0
+    (do s' <-
+     (do (idx, s1) <- read_u16 prog s;
+      do (v, s2) <- pop s1; set_local idx v s2); Ok (Continue s')).
+  Proof.
+    intros s H. apply cont_tpost. rd16 H idx s1 H1. pp H1 v s2 H2 Hv.
+    apply tgood_of_clean; [apply clean_set_local|]. intros s' Esl.
+    eapply set_local_ii; eassumption.
+  Qed.
+
+  Lemma tcase_get_global : forall s, II s -> tpost0
+    (do s' <-
+     (do (idx, s1) <- read_u16 prog s;
+      Ok (push (nth (Z.to_nat idx) (v_globals s1) VNull) s1));
+     Ok (Continue s')).
+  Proof.
+    intros s H. apply cont_tpost. rd16 H idx s1 H1.
+    apply ii_push; [exact H1|]. apply ints_nth. apply (ii_globals _ _ H1).
+  Qed.
+
+  Lemma tcase_set_global : forall s, II s -> tpost0
+    (do s' <-
+     (do (idx, s1) <- read_u16 prog s;
+      do (v, s2) <- pop s1;
+      Ok
+        (upd_globals s2
+           (replace_nth (Z.to_nat idx) v
+              (if (Z.to_nat idx <? length (v_globals s2))%nat
+               then v_globals s2
+               else v_globals s2 ++ repeat_val VNull (S (Z.to_nat idx) - length (v_globals s2))))));
+     Ok (Continue s')).
+  Proof.
+    intros s H. apply cont_tpost. rd16 H idx s1 H1. pp H1 v s2 H2 Hv.
+    apply ii_upd_globals; [exact H2|]. apply ints_replace; [exact Hv|].
+    destruct (Z.to_nat idx <? length (v_globals s2))%nat; [apply (ii_globals _ _ H2)|].
+    apply ints_app; [apply (ii_globals _ _ H2)|apply ints_repeat_null].
+  Qed.
+
+  Lemma tcase_array : forall s, II s -> tpost0
+    (do s' <-
+     (do (n, s1) <- read_u16 prog s;
+      do (vs, s2) <- pop_n (Z.to_nat n) s1 [];
+      let '(l, h') := h_alloc (v_heap s2) (OArr vs) in
+      Ok (push (VArr l) (upd_heap s2 h' (trace (v_gc s2) (VArr l)))));
+     Ok (Continue s')).
+  Proof.
+    intros s H. apply cont_tpost. rd16 H n s1 H1.
+    apply tgood_bind; [apply clean_pop_n|]. intros [vs s2] E2.
+    destruct (pop_n_ii _ s1 [] vs s2 H1 ints_nil E2) as [H2 Hvs].
+    cbn [h_alloc tgood]. apply ii_push; [|reflexivity]. apply ii_upd_heap; [exact H2|].
+    apply hi_add; [apply (ii_heap _ _ H2)|exact Hvs].
+  Qed.
+
+  Lemma tcase_index_get : forall s, II s -> tpost0
+    (do s' <-
+     (do (index, s1) <- pop s; do (lhs, s2) <- pop s1; index_get s2 lhs index);
+     Ok (Continue s')).
+  Proof.
+    intros s H. apply cont_tpost. pp H ix s1 H1 Hi. pp H1 lhs s2 H2 Hl.
+    apply index_get_tgood; assumption.
+  Qed.
+
+  Lemma tcase_index_set : forall s, II s -> tpost0
+    (do s' <-
+     (do (value, s1) <- pop s; do (index, s2) <- pop s1; do (lhs, s3) <- pop s2;
+      index_set s3 lhs index value);
+     Ok (Continue s')).
+  Proof.
+    intros s H. apply cont_tpost. pp H vv s1 H1 Hv. pp H1 ix s2 H2 Hi. pp H2 lhs s3 H3 Hl.
+    apply index_set_tgood; assumption.
+  Qed.
+
+  Lemma tcase_halt : forall s, SI s -> tpost0
+    (do g' <- untrace (v_heap s) (v_gc s) (v_final s);
+     Ok (Halted (v_final s) (upd_heap s (v_heap s) g'))).
+  Proof.
+    intros s H.
+    assert (Hok : roots_ok (v_heap s) [v_final s]).
+    { intros v [<-|[]]. apply (si_final _ _ H). }
+    destruct (untrace_strong _ _ (v_final s) (hi_gc _ _ (si_heap _ _ H))
+                (oks_roots_managed _ _ _ (si_heap _ _ H) Hok) Hok) as [g' [E _]].
+    rewrite E. exact I.
+  Qed.
+
+  (* the only instruction that can run out of fuel *)
+  Lemma tcase_builtin : forall s0 b, II s0 ->
+    byte_at prog (v_ip s0) = Some b -> opcode_of_byte b = Some OCallBuiltin ->
+    tpost s0
+    (do s' <-
+     (do (bb, s1) <- read_u8 prog (upd_ip s0 (v_ip s0 + 1));
+      do (argc, s2) <- read_u8 prog s1;
+      do (args, s3) <- pop_n (Z.to_nat argc) s2 [];
+      match builtin_of_byte bb with
+      | Some bi =>
+          do (r, printed) <- call_builtin orc bi (v_heap s3) args;
+          Ok (push (fst r) (upd_out (with_new s3 r) (v_out (with_new s3 r) ++ printed)))
+      | None => Fault FBadBuiltin
+      end); Ok (Continue s')).
+  Proof.
+    intros s0 b H0 Hb Hop.
+    pose proof (ii_upd_ip s0 (v_ip s0 + 1) H0) as H.
+    unfold read_u8 at 1. cbn [upd_ip v_ip].
+    destruct (byte_at prog (v_ip s0 + 1)) as [bb|] eqn:Ebb; [|cbn [bind tpost]; ufd].
+    cbn [bind]. unfold read_u8 at 1. cbn [upd_ip v_ip].
+    replace (v_ip s0 + 1 + 1) with (v_ip s0 + 2) by lia.
+    destruct (byte_at prog (v_ip s0 + 2)) as [argc|] eqn:Eargc; [|cbn [bind tpost]; ufd].
+    cbn [bind].
+    match goal with |- context [pop_n _ ?x []] => set (s2 := x) end.
+    assert (H2 : II s2) by (apply ii_upd_ip, ii_upd_ip; exact H).
+    assert (Hst2 : v_stack s2 = v_stack s0 /\ v_heap s2 = v_heap s0) by (split; reflexivity).
+    clearbody s2.
+    pose proof (clean_pop_n (Z.to_nat argc) s2 []) as Hc.
+    destruct (pop_n (Z.to_nat argc) s2 []) as [[args s3]|k|f|] eqn:E3; cbn [bind tpost clean] in *;
+      try exact I; try exact Hc; try contradiction.
+    destruct (pop_n_ii _ s2 [] args s3 H2 ints_nil E3) as [H3 Hargs].
+    destruct (pop_n_args _ _ _ _ _ E3) as [Ea Hh3].
+    destruct (builtin_of_byte bb) as [bi|] eqn:Ebi; [|cbn [tpost]; ufd].
+    pose proof (call_builtin_post orc bi (v_heap s3) args (ii_heap _ _ H3) Hargs) as Hp.
+    destruct (call_builtin orc bi (v_heap s3) args) as [[r printed]|k|f|]; cbn [bind tpost bpost] in *;
+      try exact I; try exact Hp.
+    - destruct r as [v h']. cbn [fst].
+      apply ii_push; [|apply Hp]. apply ii_upd_out. unfold with_new.
+      destruct (Pos.eqb _ _); apply ii_upd_heap; try exact H3; apply Hp.
+    - destruct Hp as [-> Hpr]. destruct (print_oof orc _ _ Hpr) as (v & Hin & Hd & Hn).
+      destruct Hst2 as [Hst Hhp]. rewrite Hh3, Hhp in Hd, Hn.
+      exists b, bb, argc, v. repeat (split; [assumption|]).
+      split; [|split; assumption].
+      rewrite Ea, app_nil_r, Hst in Hin. apply in_rev in Hin. exact Hin.
+  Qed.
+
+  (* THE machine-level statement for FUnwrap / FOverflow / OutOfFuel *)
+  Theorem step_int : forall s, SI s -> II s -> tpost s (step orc prog s).
+  Proof.
+    intros s0 HS0 H0. unfold step.
+    destruct (byte_at prog (v_ip s0)) as [b|] eqn:Hb; [|cbn [tpost]; ufd].
+    destruct (opcode_of_byte b) as [op|] eqn:Hop; [|cbn [tpost]; ufd].
+    destruct (opcode_eqb op OCallBuiltin) eqn:Ecb.
+    { destruct op; try discriminate Ecb. cbv beta zeta iota. eapply tcase_builtin; eassumption. }
+    apply tpost0_tpost.
+    pose proof (sinv_upd_ip prog s0 (v_ip s0 + 1) HS0) as HS.
+    pose proof (ii_upd_ip s0 (v_ip s0 + 1) H0) as H.
+    generalize dependent (upd_ip s0 (v_ip s0 + 1)). clear Hb s0 HS0 H0. intros s HS H.
+    destruct op; try discriminate Ecb; cbv beta zeta iota;
+      first [ apply fallthrough_tpost; exact H | apply tcase_const; exact H | apply tcase_pop; exact H
+            | apply tcase_push; [exact H|reflexivity] | apply tcase_not; exact H | apply tcase_negate; exact H
+            | apply tcase_jump; exact H | apply tcase_jif; exact H
+            | apply tcase_return; [exact HS|exact H] | apply tcase_return_value; [exact HS|exact H]
+            | apply tcase_call; exact H
+            | apply tcase_get_local; exact H | apply tcase_set_local; exact H
+            | apply tcase_get_global; exact H | apply tcase_set_global; exact H | apply tcase_array; exact H
+            | apply tcase_index_get; exact H | apply tcase_index_set; exact H | apply tcase_halt; exact HS ].
+  Qed.
+End Step.
+
+(** * 5. The step theorems *)
+
+(* 1. FUnwrap and FOverflow are unreachable.  (The verifier invariant is not needed for this part;
+      it is stated without it, which is stronger than asked.) *)
+Theorem step_no_unwrap : forall orc prog s, VMInv prog s -> IntInv prog s ->
+  forall f, step orc prog s = Fault f -> f <> FUnwrap /\ f <> FOverflow.
+Proof.
+  intros orc prog s HV HI f E. apply vminv_sinv in HV.
+  pose proof (step_int orc prog s HV HI) as H. rewrite E in H. exact H.
+Qed.
+
+(* the integer invariant is kept *)
+Theorem intinv_step : forall orc prog s s', VMInv prog s -> IntInv prog s ->
+  step orc prog s = Ok (Continue s') -> IntInv prog s'.
+Proof.
+  intros orc prog s s' HV HI E. apply vminv_sinv in HV.
+  pose proof (step_int orc prog s HV HI) as H. rewrite E in H. exact H.
+Qed.
+
+(* OutOfFuel only from displaying a too deeply nested (or cyclic) array *)
+Theorem step_fuel_only_print : forall orc prog s, VMInv prog s -> IntInv prog s ->
+  step orc prog s = OutOfFuel -> print_too_deep orc prog s.
+Proof.
+  intros orc prog s HV HI E. apply vminv_sinv in HV.
+  pose proof (step_int orc prog s HV HI) as H. rewrite E in H. exact H.
+Qed.
+
+(* (FUnwrap IS reachable from states outside IntInv: see unwrap_needs_int_invariant below.) *)
+
+(** ** all invariants together.  [room]: how many more boxes may be allocated before a heap word
+       can no longer address them (VMInv.addr_bounded); every step uses at most one. *)
+Definition AllInv (p : program) (c : cert) (room : Z) (s : vm) : Prop :=
+  Inv p c s /\ VMInv p s /\ IntInv p s /\ n_alloc (v_heap s) + room < 2 ^ 60.
+
+Lemma allinv_bounded : forall p c room s, AllInv p c room s -> 1 <= room -> addr_bounded s.
+Proof. intros p c room s (_ & _ & _ & H) Hr. unfold addr_bounded. lia. Qed.
+
+Theorem allinv_step : forall orc p c room s s', check p c = true -> AllInv p c room s ->
+  step orc p s = Ok (Continue s') -> AllInv p c (room - 1) s'.
+Proof.
+  intros orc p c room s s' Hc (HI & HV & HN & Hr) E.
+  split; [|split; [|split]].
+  - pose proof (verify_sound orc p c Hc s HI) as H. rewrite E in H. exact H.
+  - eapply vm_inv_step; eassumption.
+  - eapply intinv_step; eassumption.
+  - pose proof (vm_step_alloc orc p s s' HV E). lia.
+Qed.
+
+(* 2. a step from a state satisfying all invariants never faults *)
+Theorem step_total : forall orc p c room s, check p c = true -> AllInv p c room s -> 1 <= room ->
+  match step orc p s with
+  | Ok (Continue s') => AllInv p c (room - 1) s'
+  | Ok (Halted _ _) => True
+  | Err _ => True
+  | OutOfFuel => print_too_deep orc p s
+  | Fault _ => False
+  end.
+Proof.
+  intros orc p c room s Hc HA Hr.
+  pose proof (allinv_step orc p c room s) as Hstep.
+  destruct HA as (HI & HV & HN & Hroom).
+  destruct (step orc p s) as [[s'|v s']|k|f|] eqn:E; try exact I.
+  - apply Hstep; [exact Hc|exact (conj HI (conj HV (conj HN Hroom)))|reflexivity].
+  - pose proof (verify_sound orc p c Hc s HI) as H1. rewrite E in H1.
+    assert (Hb : addr_bounded s) by (unfold addr_bounded; lia).
+    destruct (vm_no_heap_fault orc p s HV Hb f E) as (A1 & A2 & A3).
+    destruct (step_no_unwrap orc p s HV HN f E) as (A4 & A5).
+    destruct f; try discriminate H1; congruence.
+  - eapply step_fuel_only_print; eassumption.
+Qed.
+
+(* the same without the allocation head-room: the four invariants of one state *)
+Corollary step_total_bounded : forall orc p c s, check p c = true ->
+  Inv p c s -> VMInv p s -> IntInv p s -> addr_bounded s ->
+  match step orc p s with
+  | Fault _ => False
+  | OutOfFuel => print_too_deep orc p s
+  | _ => True
+  end.
+Proof.
+  intros orc p c s Hc HI HV HN Hb.
+  assert (HA : AllInv p c 1 s) by (unfold addr_bounded in Hb; exact (conj HI (conj HV (conj HN Hb)))).
+  pose proof (step_total orc p c 1 s Hc HA ltac:(lia)) as H.
+  destruct (step orc p s) as [[s'|v s']|k|f|]; try exact I; exact H.
+Qed.
+
+(* the verifier invariant and the collector invariant along a run (used for the example below) *)
+Lemma invs_run_loop : forall orc p c, check p c = true ->
+  forall n s, Inv p c s -> VMInv p s ->
+  forall r s' k, run_loop orc p n s = (r, s', k) -> (forall v, r <> Ok v) -> Inv p c s' /\ VMInv p s'.
+Proof.
+  intros orc p c Hc. induction n as [|n IH]; intros s HI HV r s' k E Hr; cbn [run_loop] in E.
+  - inversion E; subst. split; assumption.
+  - pose proof (verify_sound orc p c Hc s HI) as Hs.
+    destruct (step orc p s) as [[s1|v s1]|e|f|] eqn:Es.
+    + eapply (IH s1); [exact Hs|eapply vm_inv_step; eassumption|exact E|exact Hr].
+    + inversion E; subst. exfalso. eapply Hr; reflexivity.
+    + inversion E; subst. split; assumption.
+    + inversion E; subst. split; assumption.
+    + inversion E; subst. split; assumption.
+Qed.
+
+(** * 6. Whole runs *)
+
+Theorem run_loop_total : forall orc p c, check p c = true ->
+  forall n s room, AllInv p c room s -> Z.of_nat n <= room ->
+  forall r s' k, run_loop orc p n s = (r, s', k) ->
+  match r with
+  | Fault _ => False
+  | OutOfFuel => k = 0%nat \/ print_too_deep orc p s'      (* the budget, or Display's depth *)
+  | _ => True
+  end.
+Proof.
+  intros orc p c Hc. induction n as [|n IH]; intros s room HA Hr r s' k E; cbn [run_loop] in E.
+  - inversion E; subst. left; reflexivity.
+  - rewrite Nat2Z.inj_succ in Hr.
+    pose proof (step_total orc p c room s Hc HA ltac:(lia)) as Hs.
+    destruct (step orc p s) as [[s1|v s1]|e|f|] eqn:Es.
+    + eapply (IH s1 (room - 1)); [exact Hs|lia|exact E].
+    + inversion E; subst. exact I.
+    + inversion E; subst. exact I.
+    + contradiction.
+    + inversion E; subst. right. exact Hs.
+Qed.
+
+(** ** the initial state *)
+
+(* integer constants of the bytecode: the parser only produces literals 0 <= z <= MAX_INT
+   (VMTotalB.compile_kints); a pool built by hand could hold any Z *)
+Definition kint_lb (k : const) : bool := match k with KInt z => MIN_INT <=? z | _ => true end.
+Definition kints_ok (ks : list const) : Prop := Forall (fun k => kint_lb k = true) ks.
+
+Lemma load_consts_ints : forall ks h vs h', load_consts ks h = (vs, h') -> kints_ok ks -> heap_ints h ->
+  ints_ok vs /\ heap_ints h'.
+Proof.
+  induction ks as [|k r IH]; intros h vs h' H Hk Hh; cbn [load_consts] in H.
+  - inversion H; subst. split; [apply ints_nil|exact Hh].
+  - inversion Hk as [|? ? Hk1 Hkr]; subst.
+    destruct k; unfold h_alloc in H;
+      match type of H with context [load_consts r ?h1] => destruct (load_consts r h1) as [vs2 h2] eqn:E end;
+      inversion H; subst.
+    + destruct (IH _ _ _ E Hkr Hh) as [A B]. split; [apply ints_cons; [exact Hk1|exact A]|exact B].
+    + destruct (IH _ _ _ E Hkr (hi_add h _ true (OFloat f) _ _ _ Hh I)) as [A B].
+      split; [apply ints_cons; [reflexivity|exact A]|exact B].
+    + destruct (IH _ _ _ E Hkr (hi_add h _ true (OStr s) _ _ _ Hh I)) as [A B].
+      split; [apply ints_cons; [reflexivity|exact A]|exact B].
+    + destruct (IH _ _ _ E Hkr Hh) as [A B]. split; [apply ints_cons; [reflexivity|exact A]|exact B].
+Qed.
+
+Theorem intinv_initial : forall code ks consts h0, load_consts ks empty_heap = (consts, h0) ->
+  kints_ok ks -> IntInv (mkProgram code consts) (vm_start vm_new consts h0).
+Proof.
+  intros code ks consts h0 E Hk. destruct (load_consts_ints _ _ _ _ E Hk hi_empty) as [A B].
+  constructor; cbn [vm_start vm_new v_stack v_globals v_final v_heap p_consts];
+    [apply ints_nil|apply ints_nil|exact A|reflexivity|exact B].
+Qed.
+
+Theorem allinv_initial : forall code ks consts h0 c room,
+  load_consts ks empty_heap = (consts, h0) ->
+  check (mkProgram code consts) c = true -> kints_ok ks ->
+  Z.of_nat (length ks) + room < 2 ^ 60 ->
+  AllInv (mkProgram code consts) c room (vm_start vm_new consts h0).
+Proof.
+  intros code ks consts h0 c room E Hc Hk Hr. split; [|split; [|split]].
+  - apply inv_fresh_start; [exact Hc|]. eapply load_consts_heap_ok; [exact E|apply heap_ok_empty].
+  - eapply vm_inv_initial; exact E.
+  - eapply intinv_initial; eassumption.
+  - destruct (sinv_initial code ks consts h0 E) as [_ Hn]. cbn [vm_start v_heap]. lia.
+Qed.
+
+(* 3. what VM::run does on bytecode that has a certificate: a value, one of the five error kinds
+      (errkind has no other constructors), or OutOfFuel - never a Fault *)
+Theorem run_total : forall orc bc budget,
+  (exists c, check (mkProgram (b_code bc) (fst (load_consts (b_constants bc) empty_heap))) c = true) ->
+  kints_ok (b_constants bc) ->
+  Z.of_nat (length (b_constants bc)) + Z.of_nat budget + 1 < 2 ^ 60 ->
+  match o_result (run_program orc bc budget) with
+  | Fault _ => False
+  | _ => True
+  end.
+Proof.
+  intros orc bc budget [c Hc] Hk Hb. unfold run_program.
+  destruct (load_consts (b_constants bc) empty_heap) as [consts h0] eqn:El. cbn [fst] in Hc.
+  destruct (run_loop orc (mkProgram (b_code bc) consts) budget (vm_start vm_new consts h0)) as [[r s] k] eqn:Er.
+  cbn [o_result].
+  pose proof (allinv_initial (b_code bc) _ consts h0 c (Z.of_nat budget + 1) El Hc Hk ltac:(lia)) as HA.
+  pose proof (run_loop_total orc _ c Hc budget _ _ HA ltac:(lia) r s k Er) as H.
+  destruct r; try exact I. exact H.
+Qed.
+
+(* ... and OutOfFuel means: the instruction budget is used up, or print met an array nested deeper
+   than show_depth *)
+Theorem run_fuel : forall orc bc budget,
+  (exists c, check (mkProgram (b_code bc) (fst (load_consts (b_constants bc) empty_heap))) c = true) ->
+  kints_ok (b_constants bc) ->
+  Z.of_nat (length (b_constants bc)) + Z.of_nat budget + 1 < 2 ^ 60 ->
+  o_result (run_program orc bc budget) = OutOfFuel ->
+  o_steps (run_program orc bc budget) = budget
+  \/ exists s, print_too_deep orc (mkProgram (b_code bc) (fst (load_consts (b_constants bc) empty_heap))) s.
+Proof.
+  intros orc bc budget [c Hc] Hk Hb. unfold run_program.
+  destruct (load_consts (b_constants bc) empty_heap) as [consts h0] eqn:El. cbn [fst] in Hc |- *.
+  destruct (run_loop orc (mkProgram (b_code bc) consts) budget (vm_start vm_new consts h0)) as [[r s] k] eqn:Er.
+  cbn [o_result o_steps]. intros ->.
+  pose proof (allinv_initial (b_code bc) _ consts h0 c (Z.of_nat budget + 1) El Hc Hk ltac:(lia)) as HA.
+  destruct (run_loop_total orc _ c Hc budget _ _ HA ltac:(lia) _ s k Er) as [-> | H].
+  - left. lia.
+  - right. exists s. exact H.
+Qed.
+
+(** * 7. Non-vacuity, and why the hypotheses are there *)
+
+(* the integer invariant is necessary: a state that satisfies the verifier invariant and the collector
+   invariant but holds an integer below - WORD reaches FUnwrap (such an integer cannot be encoded in
+   a word: it cannot exist in the Rust machine) *)
+Definition bad_prog : program :=
+  mkProgram [byte_of_opcode OArray; 0; 0; byte_of_opcode OConst; 0; 0; byte_of_opcode OIndexGet; byte_of_opcode OHalt]
+            [VInt (- WORD - 1)].
+
+(* FINDING (model level): the statement "Verify-Inv /\ VMInv -> no FUnwrap" is FALSE without the
+   integer invariant.  bad_prog passes the verifier; the state reached after two instructions
+   satisfies the verifier invariant, the collector invariant and addr_bounded, and its next step
+   (IndexGet of [] at index - 2^64 - 1) is Fault FUnwrap. *)
+Example unwrap_needs_int_invariant : exists c s,
+  check bad_prog c = true /\ Inv bad_prog c s /\ VMInv bad_prog s /\ addr_bounded s
+  /\ step VerifyProofs.ex_oracle bad_prog s = Fault FUnwrap
+  /\ ~ IntInv bad_prog s.
+Proof.
+  assert (Hv : verify bad_prog = true) by (vm_compute; reflexivity).
+  destruct (verify_check _ Hv) as [c Hc].
+  set (s0 := vm_start vm_new (p_consts bad_prog) empty_heap).
+  destruct (run_loop VerifyProofs.ex_oracle bad_prog 2 s0) as [[r s] k] eqn:E.
+  exists c, s. split; [exact Hc|].
+  assert (HI0 : Inv bad_prog c s0) by (apply inv_fresh_start; [exact Hc|apply heap_ok_empty]).
+  assert (HV0 : VMInv bad_prog s0).
+  { apply (vm_inv_initial (p_code bad_prog) [KInt (- WORD - 1)] (p_consts bad_prog) empty_heap). reflexivity. }
+  assert (Hr : forall v, r <> Ok v).
+  { vm_compute in E. inversion E; subst. discriminate. }
+  destruct (invs_run_loop _ _ c Hc 2 s0 HI0 HV0 r s k E Hr) as [HI HV].
+  split; [exact HI|]. split; [exact HV|].
+  vm_compute in E. inversion E; subst. clear.
+  split; [vm_compute; reflexivity|]. split; [vm_compute; reflexivity|].
+  intros [_ _ Hk _ _]. cbn [p_consts bad_prog] in Hk. inversion Hk as [|? ? Hb _]; subst.
+  vm_compute in Hb. discriminate Hb.
+Qed.
+
+(* a compiled program with a function, a loop, arrays, strings, indexing and builtins *)
+Definition tot_source : string :=
+  "functie som(n) { stel i = 0; stel t = 0; zolang i < n { i += 1; als i == 3 { volgende } t = t + i } antwoord t } stel a = [som(4), [3], ""ab""]; stel b = a[1]; b[0] = lengte(a[2]); print(""{} {}"", a, -a[0] % 4); a[-3]".
+
+Definition tot_bc : option bytecode :=
+  match front VerifyProofs.ex_unicode VerifyProofs.ex_oracle (str_cps tot_source) with
+  | Ok bc => Some bc
+  | _ => None
+  end.
+
+Definition tot_prog (bc : bytecode) : program :=
+  mkProgram (b_code bc) (fst (load_consts (b_constants bc) empty_heap)).
+
+(* the hypotheses of run_total hold for it (certificate by Verify.infer) *)
+Example tot_hyps :
+  match tot_bc with
+  | Some bc =>
+      match infer (tot_prog bc) with
+      | Some c => check (tot_prog bc) c && forallb kint_lb (b_constants bc)
+      | None => false
+      end
+  | None => false
+  end = true.
+Proof. vm_compute. reflexivity. Qed.
+
+Example tot_allinv : exists bc c, tot_bc = Some bc /\
+  AllInv (tot_prog bc) c 1000 (vm_start vm_new (p_consts (tot_prog bc)) (snd (load_consts (b_constants bc) empty_heap))).
+Proof.
+  destruct tot_bc as [bc|] eqn:E; [|vm_compute in E; discriminate E].
+  pose proof tot_hyps as H. rewrite E in H.
+  destruct (infer (tot_prog bc)) as [c|]; [|discriminate H].
+  apply andb_true_iff in H. destruct H as [Hc Hk].
+  exists bc, c. split; [reflexivity|].
+  unfold tot_prog in *. destruct (load_consts (b_constants bc) empty_heap) as [consts h0] eqn:El.
+  cbn [fst snd p_consts] in *.
+  apply (allinv_initial _ _ _ _ _ _ El Hc).
+  - unfold kints_ok. apply Forall_forall. intros k Hin. rewrite forallb_forall in Hk. apply Hk, Hin.
+  - assert (Z.of_nat (length (b_constants bc)) < 100); [|lia].
+    revert E. clear. intros E. vm_compute in E. inversion E; subst. vm_compute. reflexivity.
+Qed.
+
+(* ... and it runs to a value *)
+Example tot_runs :
+  match tot_bc with
+  | Some bc => match o_result (run_program VerifyProofs.ex_oracle bc 1000) with Ok (VInt 7) => true | _ => false end
+  | None => false
+  end = true.
+Proof. vm_compute. reflexivity. Qed.
+
+Print Assumptions step_no_unwrap.
+Print Assumptions step_total.
+Print Assumptions allinv_step.
+Print Assumptions allinv_initial.
+Print Assumptions run_loop_total.
+Print Assumptions run_total.
+Print Assumptions run_fuel.
+Print Assumptions tot_allinv.
+Print Assumptions unwrap_needs_int_invariant.
